@@ -304,6 +304,8 @@ impl BitMachine {
         }
 
         'main_loop: loop {
+            #[cfg(feature = "verif-hooks")]
+            crate::verif_hooks::sched_point(crate::verif_hooks::SchedPoint::MachineStep);
             // Capture read and write frames before the node action, to give to the tracker.
             // The read frame cursor is where the node's input begins.
             // The write frame cursor is where the node's output begins.
@@ -563,7 +565,11 @@ impl BitMachine {
 
         let jet_fn = JE::c_jet_ptr(jet);
         let c_env = env.c_jet_env();
+        #[cfg(feature = "verif-hooks")]
+        crate::verif_hooks::sched_point(crate::verif_hooks::SchedPoint::JetCall);
         let success = jet_fn(&mut output_write_frame, input_read_frame, c_env);
+        #[cfg(feature = "verif-hooks")]
+        crate::verif_hooks::sched_point(crate::verif_hooks::SchedPoint::JetReturn);
 
         if !success {
             Err(JetFailed)
